@@ -60,7 +60,8 @@ def _run(case, ctx, note=True):
     capacity = None
     if kind == "queue" and overflow >= 0:
         capacity = size + overflow
-    holders = {}  # dbapi connection id -> tid
+    holders = {}  # dbapi connection id -> tid  (cleared just before the connection is given back: two-holder check)
+    busy = [0]  # checkouts not yet *completely* returned (a connection in transit back to the pool is still capacity in use)
     viol = []
     state = {"pool": None}
     timeouts = []
@@ -77,11 +78,27 @@ def _run(case, ctx, note=True):
             if len(q) > size:
                 raise _Inv("C25/limit/idle-exceeds-pool-size", f"{len(q)} idle records > pool_size {size}")
 
+    def in_use():
+        """capacity in use right now, taking the largest of three views so that a connection in transit (taken from the
+        queue but not yet handed to the caller, being returned, or a reserved overflow slot still connecting) counts"""
+        p = state["pool"]
+        idle = [r for r in p._pool.queue]
+        idle_open = sum(1 for r in idle if r.dbapi_connection is not None and not r.dbapi_connection.closed)
+        ledger = len(db.open_connections()) - idle_open
+        reserved = p._pool.maxsize - len(idle) + p._overflow
+        return max(busy[0], ledger, reserved)
+
     def on_timeout(sched, t):
         # the scheduler expires a timed wait only when no thread is runnable; if capacity is free at that instant the
         # waiter should have been woken when it became free: lost wake-up (even if the late retry then succeeds)
-        if kind == "queue" and t.blocked_on == "cond.wait" and (capacity is None or len(holders) < capacity):
-            raise _Inv("C25/lost-wakeup/wait-expired-with-free-capacity", f"T{t.tid} stayed blocked until its timeout although only {len(holders)} of {capacity} connections were held")
+        if kind == "queue" and t.blocked_on == "cond.wait" and (capacity is None or in_use() < capacity):
+            p = state["pool"]
+            if len(p._pool.queue) == 0:
+                # capacity is free only as overflow headroom: _dec_overflow() does not wake waiters (listed known finding)
+                raise _Inv("C25/lost-wakeup/overflow-slot-freed-without-wakeup", f"T{t.tid} stayed blocked until its timeout although only {busy[0]} of {capacity} "
+                           f"connections were in use (overflow={p._overflow}, idle=0): the slot freed by _dec_overflow() woke nobody")
+            raise _Inv("C25/lost-wakeup/idle-connection-not-handed-to-waiter", f"T{t.tid} stayed blocked until its timeout although {len(p._pool.queue)} idle connection(s) "
+                       f"were in the pool and only {busy[0]} of {capacity} in use")
 
     sch = S.Scheduler(preempt=preempt, picks=case.get("picks", []), target_files=TARGETS, on_step=on_step, max_steps=30000, on_timeout=on_timeout)
 
@@ -97,11 +114,12 @@ def _run(case, ctx, note=True):
                         try:
                             f = p.connect()
                         except exc.TimeoutError:
-                            held_now = len(holders)
+                            held_now = in_use() if kind == "queue" else busy[0]
                             timeouts.append((w.tid, held_now))
                             if capacity is None or held_now < capacity:
-                                raise _Inv("C25/timeout/with-free-capacity", f"T{w.tid} got TimeoutError while only {held_now} of {capacity} connections were held (lost wake-up)")
+                                raise _Inv("C25/timeout/with-free-capacity", f"T{w.tid} got TimeoutError while only {held_now} of {capacity} connections were in use (lost wake-up)")
                             continue
+                        busy[0] += 1
                         dc = f.dbapi_connection
                         cid = dc.id
                         if dc.closed:
@@ -124,12 +142,15 @@ def _run(case, ctx, note=True):
                         f, cid, shared = stack.pop(k % len(stack))
                         if not shared or not any(c == cid for _f, c, _s in stack):
                             holders.pop(cid, None)
-                        if name == "checkin":
-                            f.close()
-                        elif name == "invalidate":
-                            f.invalidate()
-                        else:
-                            del f
+                        try:
+                            if name == "checkin":
+                                f.close()
+                            elif name == "invalidate":
+                                f.invalidate()
+                            else:
+                                del f
+                        finally:
+                            busy[0] -= 1
                     elif name == "soft_invalidate" and stack:
                         stack[k % len(stack)][0].invalidate(soft=True)
                     elif name == "status":
@@ -146,6 +167,8 @@ def _run(case, ctx, note=True):
                         raise
                     except Exception:
                         pass
+                    finally:
+                        busy[0] -= 1
         return work
 
     mods = [squeue, pimpl, pbase, ev_attr]
